@@ -139,11 +139,13 @@ def leaf(draw, cfg):
         elif t in ("integer", "number"):
             s[draw(st.sampled_from(["minimum", "maximum"]))] = draw(jv.ints)
         elif t is None:
-            s["enum"] = draw(st.lists(st.one_of(jv.scalars, st.sampled_from(HOSTILE_LITERALS)), min_size=1, max_size=3))
+            s["enum"] = draw(st.lists(st.one_of(jv.scalars, st.sampled_from(HOSTILE_LITERALS), jv.nested_literals()),
+                                      min_size=1, max_size=3))
     if draw(st.integers(0, 5)) == 0:
-        s["default"] = draw(st.one_of(jv.scalars, st.sampled_from([False, 0, "", [], {}] + HOSTILE_LITERALS[:3])))
+        s["default"] = draw(st.one_of(jv.scalars, st.sampled_from([False, 0, "", [], {}] + HOSTILE_LITERALS[:3]),
+                                      jv.nested_literals()))
     if draw(st.integers(0, 9)) == 0:
-        s["const"] = draw(st.sampled_from(HOSTILE_LITERALS + [1, None]))
+        s["const"] = draw(st.one_of(st.sampled_from(HOSTILE_LITERALS + [1, None]), jv.nested_literals()))
     return s
 
 
@@ -180,10 +182,19 @@ def sub_schema(draw, cfg, refs, depth):
         if kw == "not":
             return {"not": draw(sub_schema(cfg, refs, depth - 1))}
         s = {kw: [draw(sub_schema(cfg, refs, depth - 1)) for _ in range(draw(st.integers(1, 3)))]}
+        shape = draw(st.integers(0, 7))
+        if shape == 0:
+            # only trivial members (the composition collapses to the trivial schema)
+            s[kw] = [draw(st.sampled_from([{}, True, {"title": "x"}, {"description": "d"}]))
+                     for _ in range(draw(st.integers(1, 2)))]
+        elif shape == 1:
+            s[kw].insert(draw(st.integers(0, len(s[kw]))), draw(st.sampled_from([{}, True])))
         if draw(st.integers(0, 3)) == 0:
             kw2 = draw(st.sampled_from(["anyOf", "oneOf", "allOf"]))
             if kw2 not in s:
                 s[kw2] = [draw(sub_schema(cfg, refs, depth - 1)) for _ in range(draw(st.integers(1, 2)))]
+        if draw(st.integers(0, 3)) == 0:
+            s["default"] = draw(st.one_of(jv.scalars, st.sampled_from([False, 0, "", [], {}])))
         return s
     return draw(object_schema(cfg, refs, depth - 1))
 
